@@ -878,3 +878,29 @@ Proof.
   - apply valid_walk_vectors_sum_zero; assumption.
   - unfold walk_valid in Hv. apply andb_prop in Hv as [_ Hv]. apply Z.eqb_eq, Hv.
 Qed.
+
+(* ------------------------------------------------------------------ nd is a bijection of the directed edges *)
+Lemma orbit_pred L w s :
+  orbit_walk L w -> In s w -> exists s', In s' w /\ nd L (sdart s') = Some (sdart s).
+Proof.
+  intros HO Hs. apply in_split in Hs as (l1 & l2 & E).
+  destruct l1 as [|a0 l1r]; [|destruct (@exists_last _ (a0 :: l1r) ltac:(discriminate)) as (l1' & s' & El); rewrite El in E; clear El].
+  - exists (last w dflt). split.
+    + rewrite E. cbn [app]. rewrite (app_removelast_last dflt (l:=s :: l2)) at 2 by discriminate.
+      apply in_or_app. right. left. reflexivity.
+    + pose proof (ow_close _ _ HO) as Hc. rewrite E in Hc at 2. exact Hc.
+  - exists s'. split; [rewrite E; apply in_or_app; left; apply in_or_app; right; left; reflexivity|].
+    pose proof (ow_chain _ _ HO) as Hc. rewrite E, <- app_assoc in Hc. apply chain_app_r in Hc.
+    destruct Hc as [H _]. exact H.
+Qed.
+
+Theorem nd_surjective L d :
+  good L -> valid_dart L d -> exists d0, valid_dart L d0 /\ nd L d0 = Some d.
+Proof.
+  intros HG Hd. destruct (all_faces_spec L HG) as (fs & _ & Hf & _ & Hall).
+  apply Hall in Hd. unfold face_darts in Hd. apply in_flat_map in Hd as (w & Hw & Hd).
+  apply in_map_iff in Hw as (f & <- & Hfin). destruct (Hf f Hfin) as [HO _].
+  rewrite walk_darts_sdart in Hd. apply in_map_iff in Hd as (s & <- & Hs).
+  destruct (orbit_pred L _ s HO Hs) as (s' & Hs' & Hn).
+  exists (sdart s'). split; [apply (ow_ok _ _ HO s' Hs')|exact Hn].
+Qed.
